@@ -147,8 +147,12 @@ def runtime_ops(rng, cfg, n=25):
             ops.append({"op": "GetInContext", "id": rng.choice(names), "ctx": rng.randrange(1, 4)})
         elif c < 0.8:
             ops.append({"op": "GetTaggedBy", "id": rng.choice(["t0", "t1"]), "ctx": 0})
-        elif c < 0.88:
+        elif c < 0.86:
             ops.append({"op": "GetTaggedByInContext", "id": rng.choice(["t0", "t1"]), "ctx": rng.randrange(1, 4)})
+        elif c < 0.9:
+            ops.append({"op": "IsTaggedBy", "id": rng.choice(names + ["nope"]), "ctx": 0, "tag": rng.choice(["t0", "t1", "t9"])})
+        elif c < 0.92:
+            ops.append({"op": "CircularDeps", "id": "", "ctx": 0})
         else:
             ops.append({"op": "GetParam", "id": rng.choice(params), "ctx": 0})
     return ops
